@@ -16,8 +16,14 @@ sys.path.insert(0, os.path.dirname(os.path.abspath(__file__)))
 import common
 from common import Prop
 
+import threading
+
+import circuits
 from circuits import BaseComponent, Manager, handler
 from circuits.core import pollers as P
+from circuits.core.events import generate_events
+
+CIRCUITS_DIR = os.path.dirname(os.path.abspath(circuits.__file__))
 
 BASE = 100            # object numbers live at BASE + f
 NUMS = 3              # size of the number space (small, to force reuse)
@@ -72,6 +78,73 @@ def _cell(cell):
     return codes[0] + 4 * codes[1] + 16 * codes[2] + 64 * int(cell[3]) + 128 * int(cell[4])
 
 
+def _open_fds():
+    """numbers of the descriptors this process has open (None if that cannot be found out)"""
+    try:
+        names = os.listdir('/proc/self/fd')
+    except OSError:
+        return None
+    out = set()
+    for n in names:
+        try:
+            fd = int(n)
+            os.fstat(fd)          # the descriptor listdir itself used is gone by now
+            out.add(fd)
+        except (ValueError, OSError):
+            pass
+    return out
+
+
+def _release(poller, owned):
+    """close what the poller opened while it was constructed (wake-up pipe / socket pair, epoll descriptor), found by
+    behaviour (descriptor numbers that appeared during construction; attribute values that own one of them), never by
+    attribute name.  -> True if the release could be done"""
+    if owned is None:
+        return False
+    owned = set(owned)
+    try:
+        values = list(vars(poller).values())
+    except TypeError:
+        values = []
+    for v in values:
+        if isinstance(v, int) or not (hasattr(v, 'fileno') and hasattr(v, 'close')):
+            continue
+        try:
+            fn = v.fileno()
+        except (OSError, ValueError):
+            continue
+        if fn in owned:
+            try:
+                v.close()
+            except OSError:
+                pass
+            owned.discard(fn)
+    for fd in owned:
+        try:
+            os.close(fd)
+        except OSError:
+            pass
+    return True
+
+
+def raised_in_circuits(exc):
+    """classify an exception by the deepest frame of its traceback: circuits code (an implementation crash) or not
+    (a problem of this harness, which must never be reported as the implementation raising)"""
+    tb = exc.__traceback__
+    last = None
+    while tb is not None:
+        last = tb
+        tb = tb.tb_next
+    if last is None:
+        return False
+    fn = os.path.abspath(last.tb_frame.f_code.co_filename)
+    return fn.startswith(CIRCUITS_DIR + os.sep)
+
+
+class Degraded(Exception):
+    """the harness could not obtain an observable"""
+
+
 def probe(fno):
     """kernel ground truth for one open number, independent of the pollers under test"""
     p = select.poll()
@@ -86,11 +159,16 @@ def run_history(kind, ops):
     """-> {'ticks': [...], 'end': 0|1, 'status': [{f: six bits}], 'open': [[o, f]] per tick}"""
     m = Manager()
     rec = Rec().register(m)
-    poller = getattr(P, kind)().register(m)
+    before = _open_fds()
+    poller = getattr(P, kind)()
+    after = _open_fds()
+    owned = (after - before) if before is not None and after is not None else None
+    poller.register(m)
     owners = {1: Owner('a').register(m), 2: Owner('b').register(m)}
     objs, peers, closed_peers, allsocks = {}, {}, set(), []
     pool = sorted({op[1] for op in ops if op[0] == 'open'})
-    out = {'ticks': [], 'end': 0, 'status': [], 'open': []}
+    out = {'ticks': [], 'end': 0, 'status': [], 'open': [], 'degraded': []}
+    wake = threading.RLock()
 
     def drainq():
         for _ in range(4):
@@ -104,12 +182,16 @@ def run_history(kind, ops):
                 o, f = op[1], op[2]
                 x, y = socket.socketpair()
                 if x.fileno() >= BASE or y.fileno() >= BASE:
-                    raise RuntimeError('harness: descriptor table too full for the reserved number range')
+                    x.close(), y.close()
+                    raise Degraded('descriptor table too full for the reserved number range')
                 try:
                     os.fstat(BASE + f)
-                    raise RuntimeError('harness: number %d is in use' % (BASE + f))
+                    inuse = True
                 except OSError:
-                    pass
+                    inuse = False
+                if inuse:
+                    x.close(), y.close()
+                    raise Degraded('number %d is in use' % (BASE + f))
                 os.dup2(x.fileno(), BASE + f)
                 a = Sock(fileno=BASE + f)
                 x.close()
@@ -166,11 +248,9 @@ def run_history(kind, ops):
                         opn.append([o, objs[o].fileno() - BASE])
                 drainq()
                 del rec.log[:]
-                m._running = True
-                try:
-                    m.tick(0)
-                finally:
-                    m._running = False
+                # one zero-timeout iteration: exactly what Manager.tick(0) does while running, through public API only
+                m.fire(generate_events(wake, 0), '*')
+                m.flush()
                 drainq()
                 row = []
                 for o in pool:
@@ -180,14 +260,14 @@ def run_history(kind, ops):
                         if s is sock and sock is not None:
                             idx = {'_read': 0, '_write': 1, '_disconnect': 2}.get(name)
                             if idx is None:
-                                raise RuntimeError('unexpected event %s' % name)
+                                raise Degraded('unexpected event %s' % name)
                             cell[idx].append(_chan(m, chs))
                     cell.append(bool(sock is not None and poller.isReading(sock)))
                     cell.append(bool(sock is not None and poller.isWriting(sock)))
                     row.append(cell)
                 known = {id(s) for s in objs.values()}
                 if any(id(s) not in known for (_, s, _) in rec.log):
-                    raise RuntimeError('event for an object outside the pool')
+                    raise Degraded('event for an object outside the pool')
                 out['ticks'].append(row)
                 out['status'].append(st)
                 out['open'].append(opn)
@@ -199,21 +279,8 @@ def run_history(kind, ops):
                 s.close()
             except OSError:
                 pass
-        for attr in ('_ctrl_recv', '_ctrl_send'):
-            fd = getattr(poller, attr, None)
-            try:
-                if isinstance(fd, int):
-                    os.close(fd)
-                elif fd is not None:
-                    fd.close()
-            except OSError:
-                pass
-        pl = getattr(poller, '_poller', None)
-        if pl is not None and hasattr(pl, 'close'):
-            try:
-                pl.close()
-            except OSError:
-                pass
+        if not _release(poller, owned):
+            out['degraded'].append('poller descriptors not released (descriptor table not inspectable)')
     return out
 
 
@@ -409,7 +476,7 @@ class C10(Prop):
                     'python oracle in harness/c10.py (set model of registrations + the hang-up rule)']
     assumptions = ['kernel behaviour of select/poll/epoll is a modelled abstract machine (partial), validated only by the correspondence run',
                    'API precondition: a role is added only when not already registered; one owning component per descriptor',
-                   'the control descriptor (_ctrl_recv) and threads (resume) are outside the model',
+                   'the wake-up (control) descriptor and threads (resume) are outside the model',
                    'agreement along histories (C10_agree_history*) assumes: select-readable = POLLIN and select-writable = POLLOUT for every status (measured: statuses_select_differs_from_poll), descriptors discarded before close, a descriptor Poll/EPoll hung up on is discarded before it is registered again']
 
     def __init__(self):
@@ -417,7 +484,8 @@ class C10(Prop):
         self.stats = {'ops': {}, 'modes': {}, 'events': {'read': 0, 'write': 0, 'disconnect': 0},
                       'ticks': 0, 'reuse_opens': 0, 'crash_cases': 0, 'hup_statuses': 0, 'err_statuses': 0,
                       'select_preen_ticks': 0, 'oracle_abstained_cases': 0, 'statuses': 0,
-                      'statuses_select_differs_from_poll': 0, 'hangup_only_disconnects': 0, 'remR_with_writer_kept': 0}
+                      'statuses_select_differs_from_poll': 0, 'hangup_only_disconnects': 0, 'remR_with_writer_kept': 0,
+                      'degraded_cases': 0, 'degraded': {}}
 
     def generate(self, rng, n, tier):
         cases = []
@@ -437,10 +505,25 @@ class C10(Prop):
 
     # ---- implementation
     def impl(self, c):
+        try:
+            return self._impl(c)
+        except Exception as e:
+            if raised_in_circuits(e):
+                raise                  # the implementation raised: that is an observable (framework turns it into __crash__)
+            # a problem of the harness itself (or of the test environment): degrade, never blame the implementation
+            why = '%s: %s' % (type(e).__name__, str(e)[:120])
+            self.stats['degraded_cases'] += 1
+            self.stats['degraded'][why] = self.stats['degraded'].get(why, 0) + 1
+            self._rec.pop(common.canon(c), None)
+            return {'__degraded__': why}
+
+    def _impl(self, c):
         ops = c['ops']
         obs = {}
         for kind in KINDS:
             obs[kind] = run_history(kind, ops)
+            for d in obs[kind]['degraded']:
+                self.stats['degraded'][d] = self.stats['degraded'].get(d, 0) + 1
         self._rec[common.canon(c)] = obs
         for op in ops:
             self.stats['ops'][op[0]] = self.stats['ops'].get(op[0], 0) + 1
@@ -484,7 +567,7 @@ class C10(Prop):
         return obs
 
     def obs_for_model(self, c, obs):
-        if isinstance(obs, dict) and '__crash__' in obs:
+        if isinstance(obs, dict) and ('__crash__' in obs or '__degraded__' in obs):
             return [-999]
         return [[[[_cell(c_) for c_ in row] for row in obs[k]['ticks']], obs[k]['end']] for k in KINDS]
 
@@ -534,7 +617,7 @@ class C10(Prop):
 
     # ---- oracle: direct reading of the property on the real pollers' behaviour
     def oracle(self, c, obs):
-        if isinstance(obs, dict) and '__crash__' in obs:
+        if isinstance(obs, dict) and ('__crash__' in obs or '__degraded__' in obs):
             return None
         ops = c['ops']
         pool = sorted({op[1] for op in ops if op[0] == 'open'})
@@ -672,8 +755,14 @@ class C10(Prop):
     def finding_class(self, c, obs, what):
         return None
 
+    def extra_checks(self, tier, rng, ev):
+        if self.stats['degraded_cases']:
+            common.log('C10: %d case(s) could not be observed by the harness (degraded, not compared): %r' % (
+                self.stats['degraded_cases'], self.stats['degraded']))
+        return []
+
     def nontrivial(self, c, obs):
-        if isinstance(obs, dict) and '__crash__' in obs:
+        if isinstance(obs, dict) and ('__crash__' in obs or '__degraded__' in obs):
             return False
         nreg = len([op for op in c['ops'] if op[0] in API])
         nev = sum(len(cell[0]) + len(cell[1]) + len(cell[2]) for row in obs['Poll']['ticks'] for cell in row)
